@@ -16,9 +16,12 @@ HOSTS = [
     ('10.0.0.1', 'v4', None), ('127.0.0.1', 'v4', None),
     ('[::1]', 'v6', None), ('[2001:db8::1]', 'v6', None), ('[::ffff:1.2.3.4]', 'v6', None),
     ('[2001:DB8:0:0:0:0:0:1]', 'v6', None),
+    # percent-encoded delimiters are part of the name, not delimiters (RFC 3986 2.2: "h%3A8081" is a reg-name,
+    # it does not name port 8081 of "h"; "u%40h" has no userinfo)
+    ('h%3A8081', 'name', '10.9.0.6'), ('u%40h', 'name', '10.9.0.7'),
 ]
 PORTS = [None, 1, 80, 443, 8080, 65535]
-USERINFO = ['', 'u:p@', 'u@', 'u:@']
+USERINFO = ['', 'u:p@', 'u@', 'u:@', 'u%40x:p%3Aq@']
 PATHS = ['', '/', '/a?b=c', '/a:b@c', '//x', '/a%20b/;p?q#f'.split('#')[0], '?q=1']     # '?q=1': empty path, query only
 OK = b'HTTP/1.1 200 OK\r\nContent-Length: 2\r\n\r\nok'
 
@@ -118,7 +121,7 @@ def part_a(tier, rep):
                           {'target': t, 'exc': '%s: %s' % (type(e).__name__, e)})
             continue
         got_host = (p.host or b'').decode('utf-8', 'replace')
-        if got_host.strip('[]').lower() != (host_ref or ''):
+        if got_host.strip('[]').lower() != (host_ref or '').lower():
             rep.violation(dict(feats, symptom='derived_host_disagrees_with_reference'),
                           {'target': t, 'got': got_host, 'want': host_ref})
         want_port = port_ref if port_ref is not None else (443 if form == 'auth' else 80)
@@ -244,7 +247,7 @@ def run(tier):
     try:
         return netcheck.run(PROP, tier, scenarios(tier), check, 0, None, det_every=37,
                             rule='request-targets from a bounded URI grammar: 11 hosts (names incl. punycode/UTF-8/upper case, '
-                                 'IPv4, IPv6 in four spellings) x 6 ports x 4 userinfo forms x 6 paths in absolute form, hosts x ports '
+                                 'IPv4, IPv6 in four spellings) x 6 ports x 5 userinfo forms x 6 paths in absolute form, hosts x ports '
                                  'in authority form, 17 damaged targets; part A: real parser vs urlsplit on every target; part B: '
                                  'each target through the real forward proxy, OS-level connect / resolution log as observable')
     finally:
